@@ -139,6 +139,8 @@ pub struct ConnScript {
 pub struct Case {
     pub conns: Vec<ConnScript>,
     pub evs: Vec<Ev>,
+    /// every call of every connection is buffered before the server runs; fixed connection set
+    pub upfront: bool,
 }
 
 fn toks(out: &[u8]) -> Vec<String> {
@@ -199,7 +201,7 @@ pub fn run_case(c: &Case) -> (Vec<Vec<u8>>, Vec<String>, bool) {
 }
 
 pub fn line(c: &Case, obs: &(Vec<Vec<u8>>, Vec<String>, bool)) -> String {
-    let mut s = String::from("srv D");
+    let mut s = String::from(if c.upfront { "srv F1 D" } else { "srv D" });
     for (i, cs) in c.conns.iter().enumerate() {
         let ds: Vec<String> = cs.descs.iter().map(|d| d.tok()).collect();
         s.push_str(&format!(
@@ -347,7 +349,47 @@ pub fn gen_case(rng: &mut Rng, g: &GenOpts) -> Case {
     evs.push(Ev::Poll);
     // a connection that was cut mid-burst by plan 2/3 did not deliver all its frames: its script keeps
     // only what arrived in full (the model interprets frames by position)
-    Case { conns, evs }
+    Case { conns, evs, upfront: false }
+}
+
+/// Fairness cases: 2..5 connections, some of them flooders with many pipelined calls; everything is
+/// delivered before the server is polled, nothing closes, no streams: the connection set is fixed and
+/// every unserved call is waiting the whole time.
+pub fn gen_upfront(rng: &mut Rng) -> Case {
+    let nconn = rng.range(2, 5);
+    let mut conns = vec![];
+    let mut evs = vec![];
+    for i in 0..nconn {
+        let n = if rng.chance(1, 2) { rng.range(4, 14) } else { rng.range(0, 3) };
+        let descs: Vec<Desc> = (0..n)
+            .map(|_| match rng.below(6) {
+                0 => Desc::Fail(false),
+                1 => Desc::Echo(rng.below(1000) as u32, true),
+                _ => Desc::Echo(rng.below(1000) as u32, false),
+            })
+            .collect();
+        conns.push(ConnScript { good: true, wfail: None, descs });
+        evs.push(Ev::Connect(i));
+    }
+    evs.push(Ev::Poll);
+    let mut order: Vec<usize> = (0..nconn).collect();
+    for i in (1..order.len()).rev() {
+        order.swap(i, rng.below(i + 1));
+    }
+    for i in order {
+        let mut b = vec![];
+        for (k, d) in conns[i].descs.iter().enumerate() {
+            b.extend_from_slice(&d.wire(i, k));
+            b.push(0);
+        }
+        if !b.is_empty() {
+            evs.push(Ev::Arrive(i, b));
+        }
+    }
+    for _ in 0..rng.range(1, 4) {
+        evs.push(Ev::Poll);
+    }
+    Case { conns, evs, upfront: true }
 }
 
 pub fn main(o: &Opts, which: &str) {
@@ -359,10 +401,10 @@ pub fn main(o: &Opts, which: &str) {
         "srv-stream" => (if o.thorough() { 40_000 } else { 3000 }, GenOpts { max_conns: 3, max_calls: 6, faults: true, streams: true, flooders: false }),
         _ => (if o.thorough() { 40_000 } else { 3000 }, GenOpts { max_conns: 5, max_calls: 4, faults: false, streams: true, flooders: true }),
     };
-    for _ in 0..n {
+    for k in 0..n {
         let mut r2 = Rng::new(rng.next());
         em.case(|| {
-            let c = gen_case(&mut r2, &g);
+            let c = if which == "srv-fair" && k % 2 == 0 { gen_upfront(&mut r2) } else { gen_case(&mut r2, &g) };
             let obs = run_case(&c);
             vec![line(&c, &obs)]
         });
